@@ -118,34 +118,16 @@ def label_order(fi, objects):
     raise AnalysisError(f"{fi.where}: merged-label assignment not found")
 
 
-def run_merge_order(chk, src, floor=7):
+def run_merge_order(chk, src, floor=3):
     chk.rule("merge-order", "when two bonds are merged by reshape (operator x state), the order of the merged tensor legs equals the order of the "
              "operands of the add_outer that builds the merged labels (tensor index a*dim_b + b <-> label qn_a[a] + qn_b[b])", floor)
     # chain products: abstract run (chain_rules.product_rule)
     from .chain_rules import product_rule
     product_rule(chk, src, "merge-order")
-    # tree
-    ta = src.func(TREE, "TTNO.apply")
-    ext = [n for n in ast.walk(ta.node) if isinstance(n, ast.Call) and isinstance(n.func, ast.Attribute) and n.func.attr == "extend"
-           and unparse(n.func.value) == "output_indices" and n.args and isinstance(n.args[0], ast.List) and len(n.args[0].elts) == 2]
-    lab = [c for c in ast.walk(ta.node) if isinstance(c, ast.Call) and unparse(c.func) == "add_outer"]
-    if len(ext) != 2 or len(lab) != 1:
-        raise AnalysisError(f"{ta.where}: merged-bond index construction not found ({len(ext)} extends, {len(lab)} add_outer)")
-    who = {}
-    for n in ast.walk(ta.node):
-        if isinstance(n, ast.Assign) and isinstance(n.targets[0], ast.Name) and isinstance(n.value, ast.Call) and unparse(n.value.func).endswith("get_node_indices") \
-                and n.value.args:
-            who[n.targets[0].id] = unparse(n.value.args[0])
-    lorder = [unparse(a).split(".")[0] for a in lab[0].args]
-    for which, e in zip(("children bonds", "parent bond"), ext):
-        torder = [who.get(unparse(x.value) if isinstance(x, ast.Subscript) else unparse(x)) for x in e.args[0].elts]
-        chk.ob("merge-order", f"TTNO.apply {which}", torder == lorder, ta.where, {"tensor legs": torder, "labels": lorder}, "same operand order", line=e.lineno,
-               detail="TTNO.apply merges (state, operator) bond pairs in one order and builds the labels in the other")
-    shp = [n for n in ast.walk(ta.node) if isinstance(n, ast.Call) and unparse(n.func) == "output_shape.append" and isinstance(n.args[0], ast.BinOp)]
-    for n in shp:
-        facs = [unparse(n.args[0].left).split(".")[0], unparse(n.args[0].right).split(".")[0]]
-        # the size of a merged bond is a commutative product: only the two factors matter, not their order
-        chk.ob("merge-order", f"TTNO.apply shape {unparse(n.args[0])}", sorted(facs) == sorted(lorder), ta.where, sorted(facs), sorted(lorder), line=n.lineno)
+    # tree: the operator x state product of the tree classes is decided by the abstract run on symbolic trees (tree_rules.state_networks, rule `state-network`):
+    # merged (state, operator) bond pairs and their labels in one order, for every node of every topology, whatever the convention
+    from . import tree_rules as TR
+    TR.state_networks(chk, src, which=("apply",), floor=20)
 
 
 def run_label_freshness(chk, src):
